@@ -84,6 +84,27 @@ fn real_part<L: Tab>(run: &Run, st: bool, n: usize) {
                 }
             }
         }
+        // the k-th draws of two threads are independent: two threads whose sequences agree at
+        // many positions share their generator state (thresholds: a fair generator exceeds
+        // them with probability < 2^-200 per pair)
+        let agree_bound = match n {
+            0 => 250,
+            1 => 224,
+            2 => 128,
+            3 => 64,
+            _ => 32,
+        };
+        'pairs: for i in 0..all.len() {
+            for j in (i + 1)..all.len() {
+                if let (Ok(a), Ok(b)) = (&all[i].1, &all[j].1) {
+                    let agree = a.iter().zip(b.iter()).filter(|(x, y)| x == y).count();
+                    if agree >= agree_bound {
+                        l.violation(format!("{:02}|{}|real|threads", n, tyname(st)), "C19/random/threads-draw-the-same-sequence", format!("bin=main;kind=real;ty={};n={}", tyname(st), n), format!("the sequences of two threads agree at fewer than {} of {} positions (independent draws)", agree_bound, DRAWS), format!("threads {} and {} drew the same table at {} of {} positions", all[i].0, all[j].0, agree, DRAWS));
+                        break 'pairs;
+                    }
+                }
+            }
+        }
         // draws of different threads differ from one another as well (n >= 8: all 17 x 256 distinct)
         if n >= 8 {
             let mut set = std::collections::BTreeSet::new();
@@ -103,12 +124,49 @@ fn real_part<L: Tab>(run: &Run, st: bool, n: usize) {
     });
 }
 
+/// Draws of different sizes interleaved on ONE fresh thread: 256 rounds, each drawing every
+/// size 0..=9 once (ascending, descending and rotated orders alternate); the 256 draws
+/// collected per size are judged like any other 256 draws.
+fn mixed_sizes(st: bool) -> Vec<(usize, Verdict)> {
+    fn one<L: Tab>(n: usize) -> Result<Vec<u64>, String> {
+        guarded(|| L::t_random(n).t_blocks().to_vec())
+    }
+    std::thread::scope(|sc| {
+        sc.spawn(move || {
+            let top = 9usize;
+            let mut per: Vec<Result<Vec<Vec<u64>>, String>> = (0..=top).map(|_| Ok(Vec::new())).collect();
+            for r in 0..DRAWS {
+                let order: Vec<usize> = match r % 4 {
+                    0 => (0..=top).collect(),
+                    1 => (0..=top).rev().collect(),
+                    2 => (0..=top).map(|k| (k + r / 4) % (top + 1)).collect(),
+                    _ => (0..=top).map(|k| (k * 3 + r / 4) % (top + 1)).collect(),
+                };
+                for n in order {
+                    let d = if st { for_static!(n, one(n)) } else { one::<volute::Lut>(n) };
+                    match (d, &mut per[n]) {
+                        (Ok(x), Ok(v)) => v.push(x),
+                        (Err(p), slot) => *slot = Err(p),
+                        _ => {}
+                    }
+                }
+            }
+            per.iter().enumerate().map(|(n, d)| (n, judge(n, &if st { format!("Lut{}", n) } else { "Lut".to_string() }, 0, d))).collect()
+        })
+        .join()
+        .unwrap_or_else(|_| vec![(0, Err(("harness".to_string(), "mixed-size thread panicked".to_string())))])
+    })
+}
+
 pub fn replay(case: &Case) -> Result<Verdict, String> {
     if case.opt("bin") == Some("rng") {
         return Err("ENV cases are replayed by lsx-rng (use ./check replay)".into());
     }
     let st = parse_ty(case.get("ty")?)?;
     let n = case.usize("n")?;
+    if case.get("kind")? == "mixed" {
+        return Ok(mixed_sizes(st).into_iter().find(|(k, v)| *k == n && v.is_err()).map(|(_, v)| v).unwrap_or(Ok(())));
+    }
     fn go<L: Tab>(n: usize) -> Verdict {
         let d = draws::<L>(n);
         judge(n, &L::tname(n), 0, &d)
@@ -129,6 +187,22 @@ pub fn run(run: &Run) {
     }
     for n in 13..=14usize {
         rp::<volute::Lut>(run, false, n);
+    }
+    for st in [false, true] {
+        run.section_seq(&format!("REAL rand mixed sizes on one fresh thread ({}): 256 rounds over sizes 0..=9 in alternating orders", if st { "LutN" } else { "Lut" }), false, "draws of different sizes interleaved on one thread; the 256 draws of each size judged as above; statistical, not part of the digest", |l| {
+            for (n, v) in mixed_sizes(st) {
+                l.states += DRAWS as u64;
+                l.transitions += DRAWS as u64;
+                l.validated += DRAWS as u64;
+                match v {
+                    Ok(()) => l.nontrivial += DRAWS as u64,
+                    Err(v) => {
+                        let sig = if v.0.contains("well-formed") { "C19/random/malformed-table" } else if v.0.contains("both values") { "C19/random/degenerate-position" } else { "C19/random/draws-not-distinct" };
+                        l.violation(format!("{:02}|{}|real|mixed", n, tyname(st)), sig, format!("bin=main;kind=mixed;ty={};n={}", tyname(st), n), format!("[sizes interleaved on one thread] {}", v.0), v.1);
+                    }
+                }
+            }
+        });
     }
     let tier = run.tier.name().to_string();
     child_run_with(run, "LSX_RNG", "rng-shim", &["run", &tier], &[]);
